@@ -4,6 +4,7 @@ import (
 	"errors"
 	"fmt"
 	"io"
+	"sort"
 
 	"verif/mc/core"
 	"verif/mc/env"
@@ -27,6 +28,7 @@ func init() {
 		Rule: "for every corpus frame and EVERY cut offset k in [0,len): the scripted reader delivers exactly the first k bytes and then ends the stream (io.EOF) or fails with a fresh error value E; " +
 			"the delivered prefix is fragmented by every schedule with at most 2 (quick) / 3 (thorough) non-default Read answers (short read, zero read, last chunk delivered together with the error). " +
 			"Every (frame, cut, kind) is repeated, with one deviation less, through eight further reader implementations over the scripted source or holding the prefix (bufio.Reader 16/4096/pre-filled, a reader of its own type with ReadByte/Peek/Discard/WriteTo, io.LimitedReader, bytes.Buffer, bytes.Reader, strings.Reader) and with four further shapes of E (wrapping io.EOF, wrapping io.ErrUnexpectedEOF, a net.Error-like value whose Timeout() and Temporary() are true, wrapping io.ErrShortWrite). " +
+			"Big frames (PUBLISH with 70 000, 140 000, 300 000 and 1.3 M bytes of payload, and frames sized by the integer constants of the tree under test): cuts around the header, around every power-of-two multiple of 512/1000/4096/65536 and of the mined constants counted from the frame and from the body start, x {EOF, E} x {error on its own call, error together with the last bytes} x {one delivery, 4 KiB and 64 KiB segments} x {scripted source, bufio}. " +
 			"Every frame of the valid corpus V (~2.7k frames) is cut at every offset as well, with 0 (quick) / 1 (thorough) further deviations. Required: nil packet and non-nil error; errors.Is(err,E) whenever the reader returned E; errors.Is(err,io.EOF) for k=0 with EOF. " +
 			"distinct_nontrivial = distinct (frame, k, kind, schedule) with k>0 (the fault strikes inside the frame).",
 		Assumptions: []string{
@@ -143,6 +145,7 @@ func c08Variants(kind env.EndKind) []c08Var {
 }
 
 func runC08(x *core.Ctx) {
+	runC08Big(x)
 	bound := 2
 	if x.Thorough() {
 		bound = 3
@@ -218,7 +221,139 @@ func runC08(x *core.Ctx) {
 	}
 }
 
+// ---- big frames: selected cut offsets ----------------------------------------
+
+func c08BigFrames() []CFrame {
+	var out []CFrame
+	for _, n := range []int{70_000, 140_000, 300_000, 1_300_000} {
+		p := &spec.Packet{Type: 3, Topic: []byte("big/t"), Payload: gen.Content('L', n)}
+		out = append(out, CFrame{Name: fmt.Sprintf("publish.payload=%d", n), B: mustEncode(p, spec.Form{}), Valid: true, Type: 3})
+	}
+	return append(out, minedBigFrames()...)
+}
+
+// c08BigCuts: offsets at which a decoder that reads large bodies piecewise
+// may change gear: around the header, around powers of two and multiples
+// of the mined constants counted from the start of the frame and from the
+// start of the body, and the last bytes.
+func c08BigCuts(frame []byte) []int {
+	hdr := c06HeaderLen(frame)
+	set := map[int]bool{}
+	add := func(k int) {
+		for d := -1; d <= 1; d++ {
+			if k+d >= 0 && k+d < len(frame) {
+				set[k+d] = true
+			}
+		}
+	}
+	add(0)
+	add(hdr)
+	add(len(frame) - 1)
+	add(len(frame) / 2)
+	bases := []int{512, 1000, 4096, 65536}
+	for _, n := range Mined.NovelLens {
+		if n >= 256 && len(bases) < 40 {
+			bases = append(bases, n)
+		}
+	}
+	for _, b := range bases {
+		for k := b; k < len(frame)+b; k *= 2 {
+			add(k)
+			add(hdr + k)
+		}
+		for m := 1; m <= 3; m++ {
+			add(m * b)
+			add(hdr + m*b)
+		}
+	}
+	var ks []int
+	for k := range set {
+		ks = append(ks, k)
+	}
+	sort.Ints(ks)
+	return ks
+}
+
+// c08Big: one chooser-free execution; mix: the last delivered bytes come
+// together with the end error; chunk > 0: the prefix arrives in segments.
+func c08Big(f CFrame, k int, kind env.EndKind, mix bool, chunk int, rk env.Kind) *core.Finding {
+	resetGlobals()
+	E := env.NewError(env.EPlain, "E")
+	r := &env.Reader{Data: f.B[:k], End: kind, E: E, MixEnd: mix}
+	if chunk > 0 {
+		r.Pat = &env.Pattern{Chunk: chunk}
+	}
+	p, err, res := readPacket(env.Wrap(rk, r), stepBudget(len(f.B)))
+	kindS := "eof"
+	if kind == env.EndErr {
+		kindS = "err"
+	}
+	mk := func(class, what string) *core.Finding {
+		return &core.Finding{Class: class + "/big/" + kindS + "/" + rk.String(), Sig: map[string]string{"frame": f.Name, "kind": kindS},
+			Detail: fmt.Sprintf("frame %s (%d bytes) cut after %d bytes (error together with the last bytes: %v; segments of %d; through %s) => %s", f.Name, len(f.B), k, mix, chunk, rk, what)}
+	}
+	switch {
+	case res.Panic != "":
+		return mk("panic", "panic: "+res.Panic)
+	case res.Budget:
+		return mk("nontermination", "step budget exceeded")
+	case p != nil:
+		return mk("packet-from-partial-frame", fmt.Sprintf("returned packet %q (err=%v)", clip(safeString(p), 80), err))
+	case err == nil:
+		return mk("no-error", "nil packet and nil error")
+	}
+	if kind == env.EndErr && rk == env.KRaw && r.AfterEndOrEnded() && !errors.Is(err, E) {
+		return mk("error-identity-lost", fmt.Sprintf("reader failed with E but errors.Is(err,E) is false: %v", err))
+	}
+	return nil
+}
+
+func runC08Big(x *core.Ctx) {
+	for _, f := range c08BigFrames() {
+		f := f
+		for _, k := range c08BigCuts(f.B) {
+			if !x.Mine() {
+				continue
+			}
+			if x.Expired() {
+				return
+			}
+			for _, kind := range []env.EndKind{env.EndEOF, env.EndErr} {
+				for _, mix := range []bool{false, true} {
+					for _, chunk := range []int{0, 4096, 65536} {
+						for _, rk := range []env.Kind{env.KRaw, env.KBufio4096} {
+							if rk != env.KRaw && chunk == 65536 {
+								continue
+							}
+							k, kind, mix, chunk, rk := k, kind, mix, chunk, rk
+							x.Eval("big-frames")
+							x.Distinct(core.Hash([]byte(fmt.Sprintf("%s/%d/%d/%v/%d/%d", f.Name, k, kind, mix, chunk, rk))))
+							if fd := c08Big(f, k, kind, mix, chunk, rk); fd != nil {
+								x.Report(fd, func() core.Case {
+									return core.Case{Harness: "c08.big", Params: map[string]any{"name": f.Name, "k": k, "kind": int(kind), "mix": mix, "chunk": chunk, "reader": int(rk)}}
+								}, func() *core.Finding { return c08Big(f, k, kind, mix, chunk, rk) })
+							}
+						}
+					}
+				}
+			}
+		}
+		x.Sample("big-frames", 2, func() any {
+			return map[string]any{"frame": f.Name, "bytes": len(f.B), "cut_offsets": len(c08BigCuts(f.B))}
+		})
+	}
+}
+
 func replayC08(c core.Case) *core.Finding {
+	if c.Harness == "c08.big" {
+		for _, f := range c08BigFrames() {
+			if f.Name == paramStr(c.Params, "name") {
+				mix, _ := c.Params["mix"].(bool)
+				return c08Big(f, paramInt(c.Params, "k"), env.EndKind(paramInt(c.Params, "kind")), mix, paramInt(c.Params, "chunk"), env.Kind(paramInt(c.Params, "reader")))
+			}
+		}
+		return nil
+	}
 	v := c08Var{RK: env.Kind(paramInt(c.Params, "reader")), EK: env.ErrKind(paramInt(c.Params, "errkind"))}
 	return c08Exec(paramStr(c.Params, "name"), unhex(c.Frame), paramInt(c.Params, "k"), env.EndKind(paramInt(c.Params, "kind")), c.Choices, v)
 }
